@@ -1,6 +1,6 @@
 """C10 — nearest-latitude and portion-of-night fallbacks follow their stated formulas (engine M)."""
 from ..common import *
-from ..obl import base, policy
+from ..obl import base, policy, wiring
 from . import policyprop as pp
 
 LEVEL = "model_checking"
@@ -21,9 +21,12 @@ def run(rep):
     pols = ["AngleBased", "SeventhOfNightFajrIshaAlways", "SeventhOfNightFajrIshaInvalid", "SeventhOfDayFajrIshaAlways",
             "SeventhOfDayFajrIshaInvalid", "MinutesFromMaghribFajrIshaAlways", "MinutesFromMaghribFajrIshaInvalid",
             "NearestLatitudeAllPrayersAlways", "NearestLatitudeFajrIshaAlways", "NearestLatitudeFajrIshaInvalid"]
-    results = base.run_obligations(rep, [(policy.policy_clauses, (p, ["formula"], "named")) for p in pols])
+    results = base.run_obligations(rep, [(policy.policy_clauses, (p, ["formula"], "named")) for p in pols] + [(wiring.new_coords_wiring, None)])
     if any(x["cands"] for x in results):
-        if not pp.confirm_kadj(rep, results, "C10"):
+        a = pp.confirm_kadj(rep, results, "C10")
+        b = pp.nearest_lat_grid(rep) if any(c["inputs"].get("policy", "").startswith("NearestLatitude") or c.get("nearest_lat") or c["inputs"].get("lat2") is not None
+                                          for x in results for c in x["cands"]) else False
+        if not (a or b):
             rep.inconclusive.append("solver counterexamples were not reproduced natively; first: %r" % ([c for x in results for c in x["cands"]][0],))
     rep.samples = [{"obligation": o["name"], "status": o["status"], "paths": o.get("paths")} for o in rep.obligations[:6]]
 
